@@ -221,3 +221,63 @@ func zzSameValue(kind int, want, got datatype.Type) {
 		vAssert(got.(datatype.DiameterIdentity) == want.(datatype.DiameterIdentity), "C02: DiameterIdentity read back")
 	}
 }
+
+// zzC01_wire: the converse direction. A well-formed body (DESIGN B.3): K AVP slots, declared lengths
+// consistent with the slots, padding bytes zero, payload length legal for the dictionary's type;
+// everything else symbolic. ReadMessage then Serialize reproduces the bytes exactly; AVPs unknown to
+// the dictionary are carried as opaque data.
+func zzC01_wire() {
+	k := vLen("k", 1, vParam("WK", 2))
+	sizes := make([]int, k)
+	total := 0
+	for i := range sizes {
+		sizes[i] = 4 * vLen("p4", 2, vParam("WP", 24)/4)
+		total += sizes[i]
+	}
+	body := vBytes("body", total)
+	app := vU32("app")
+	d := vAbstractDict()
+	recs := zzFrameFixed(body, sizes)
+	cmd := vU32("cmd") & 0xffffff
+	flags := vU8("flags")
+	zzKnownCommand(d, app, cmd)
+	wire := zzMessageBytes(body, flags, cmd, app)
+	hbh, e2e := vU32("hbh"), vU32("e2e")
+	wire[12], wire[13], wire[14], wire[15] = byte(hbh>>24), byte(hbh>>16), byte(hbh>>8), byte(hbh)
+	wire[16], wire[17], wire[18], wire[19] = byte(e2e>>24), byte(e2e>>16), byte(e2e>>8), byte(e2e)
+	m, err := ReadMessage(zzNewReader(wire), d)
+	// well-formedness per record (asked after decoding: the dictionary answers are already fixed)
+	for _, r := range recs {
+		da, _ := d.FindAVPWithVendor(app, r.code, r.vendor)
+		ty := da.Data.Type
+		n := r.l - r.hdr
+		vAssume(ty != datatype.GroupedType) // nested bodies: zzC01_avp kind 20 and C04
+		vAssume(zzLegalLen(ty, n))
+		for j := r.off + r.l; j < r.off+((r.l+3)&^3); j++ {
+			vAssume(body[j] == 0) // padding is zero in a well-formed message
+		}
+		if ty == datatype.AddressType {
+			// canonical address images only: family 1 with 4 bytes, family 2 with 16 (not v4-mapped),
+			// another family with data whose total length is not 4 or 16 (KF-C01-address-otherfamily-len)
+			p := body[r.off+r.hdr : r.off+r.l]
+			vAssume(n >= 3)
+			fam := uint16(p[0])<<8 | uint16(p[1])
+			vAssume(fam != 0 && fam != 65535)
+			if fam == 1 {
+				vAssume(n == 6)
+			} else if fam == 2 {
+				vAssume(n == 18 && !zzIsV4Mapped(p[2:]))
+			} else {
+				vAssume(n != 4 && n != 16)
+			}
+		}
+	}
+	vAssert(err == nil && m != nil, "C01: a well-formed wire message is read")
+	if err != nil {
+		return
+	}
+	out, serr := m.Serialize()
+	vAssert(serr == nil, "C01: and serialises")
+	zzBytesEq(out, wire, "C01: a well-formed wire message that is read and then serialised reproduces its bytes exactly")
+	vReach("C01_wire")
+}
